@@ -535,7 +535,8 @@ func (h *hist) opRevoke() {
 			return
 		}
 		if role == "unauthenticated" && ok200 {
-			h.violate("revoke:unauthenticated-not-refused", fmt.Sprintf("revocation request with bad client credentials (%s) answered 200", callerKind))
+			// (fatal: a revocation that went through may have changed the world behind the model's back)
+			h.fatal("revoke:unauthenticated-not-refused", fmt.Sprintf("revocation request with bad client credentials (%s) answered 200", callerKind))
 			return
 		}
 		if wasLive {
@@ -556,6 +557,12 @@ func (h *hist) opRevoke() {
 			h.probe(t)
 		} else {
 			h.run.Count("revoke", fmt.Sprintf("%s_on_dead_token_%d_grey", role, resp.Status))
+			if ok200 && t.Kind == "refresh" {
+				// grey, but a dead refresh token's revocation may have taken its (live) access token along: the model
+				// no longer describes this world
+				h.run.Count("revoke", "history_ended_after_grey_revocation")
+				h.stop = true
+			}
 		}
 	}
 }
